@@ -612,6 +612,7 @@ def run(res, tier):
     res.rule("SC-2", "an entry guard `scratch.available() >= X_tmp_bytes(..)` names the operation's own companion (or its family's shared query)")
     res.rule("SC-3", "on every path the first effective use of an object taken from scratch initialises it (zero/fill/store/encode/sampling, or output operand of an overwrite-type operation); never a read or accumulate operand")
     res.rule("SC-4", "a take whose size cannot be a 64-byte multiple (literal ring degree) is not followed by another consumer of the same scratch")
+    res.rule("SC-6", "a temporary created from a layout literal and handed to a nested operation is declared, in the companion, by the nested query evaluated on a literal with equal fields under the parameter correspondence")
     res.rule("SC-5", "only the scratch carver builds scratch views / typed slices from raw bytes")
     res.assumptions = ["each callee is verified against its own declaration separately (modular)", "size queries are monotone in their arguments", "argument-level arithmetic is not decided"]
     cfgs = ["avx-dev"] if tier == "quick" else ["avx-dev", "ref-dev"]
@@ -628,7 +629,119 @@ def run(res, tier):
         res.floor("SC-4", "literal-degree takes", n4, 1)
         n5 = sc5(p, res)
         res.floor("SC-5", "raw carving sites", n5, 5)
+        n6 = sc6(p, res, pairs)
+        res.floor("SC-6", "conversion temporaries handed to nested operations", n6, 1)
         res.fn_count += res.extra.get("pairs_found", 0)
+
+
+# ------------------------------------------------------------------ SC-6
+def c17_key_le(a, b):
+    from .c17 import key_le
+    return key_le(a, b)
+
+
+def sc6(p, res, pairs):
+    """conversion temporaries: where an operation hands a nested operation a temporary it took with a layout literal, the companion evaluates the nested
+    operation's query on a literal with the same fields (under the parameter correspondence)"""
+    from .sym import Sym
+    n = 0
+    T = SCR_T + ("to_ref", "to_mut")
+
+    def literal(fn, flow, sym, op, depth=0):
+        """('lit', {field: key}) | ('param', i) | None for an infos-like operand"""
+        out = None
+        rr = flow.op_roots(op)
+        if len(rr) != 1:
+            return None
+        r = next(iter(rr))
+        if r[0] == "param" and not r[2]:
+            return ("param", r[1])
+        if r[0] == "agg" and not r[3]:
+            st = fn.blocks[r[1]]["s"][r[2]][2]
+            if st.get("ak") != "Adt" or not st.get("fields"):
+                return None
+            return ("lit", {nm: sym.operand(o).key() for nm, o in zip(st["fields"], st["o"])})
+        if r[0] == "call" and r[2][:1] == ("0",) and depth < 2:
+            t = fn.blocks[r[1]]["t"]
+            nm = (fn.callee_def(t) or {}).get("n", "")
+            if nm.startswith("take_") and len(t["a"]) == 2:
+                return literal(fn, flow, sym, t["a"][1], depth + 1)
+        return None
+
+    for uid in sorted(pairs):
+        f, comp, corr, how = pairs[uid]
+        flow = Flow(f, transparent=T)
+        sym = Sym(f, flow)
+        cflow = csym = None
+        for bi, t in f.calls():
+            tg = [x for x in p.targets(f, t) if x in pairs]
+            if not tg:
+                continue
+            g, gq, gcorr, ghow = pairs[tg[0]]
+            gqn = gq.name[: -len("_default")] if gq.name.endswith("_default") else gq.name
+            for cl in range(2, gq.argc + 1):
+                if cl not in gcorr or gcorr[cl] - 1 >= len(t["a"]):
+                    continue
+                d = literal(f, flow, sym, t["a"][gcorr[cl] - 1])
+                if d is None or d[0] != "lit":
+                    continue
+                n += 1
+                if cflow is None:
+                    cflow = Flow(comp, transparent=T)
+                    csym = Sym(comp, cflow)
+                sites = []
+                for cb, ct in comp.calls():
+                    cn = (comp.callee_def(ct) or {}).get("n", "")
+                    cn = cn[: -len("_default")] if cn.endswith("_default") else cn
+                    if cn == gqn and cl - 1 < len(ct["a"]):
+                        sites.append(literal(comp, cflow, csym, ct["a"][cl - 1]))
+                if not sites:
+                    res.undec("SC-6", "%s: companion %s does not call %s (pays otherwise)" % (f.pretty, comp.name, gqn))
+                    continue
+                if any(x is None for x in sites):
+                    res.undec("SC-6", "%s: an argument of %s in %s is not a parameter or literal" % (f.pretty, gqn, comp.name))
+                    continue
+                want = d[1]
+                ok = False
+                why = []
+                for x in sites:
+                    if x[0] == "param":
+                        # a parameter stands for the literal of its own accessors
+                        pk = Poly.atom(("p", x[1], ())).key()
+                        x = ("lit", {"n": None, "base2k": Poly.atom(("f", "base2k", (pk,))).key(), "k": Poly.atom(("f", "max_k", (pk,))).key(),
+                                     "rank": Poly.atom(("f", "rank", (pk,))).key()})
+                    if set(x[1]) != set(want):
+                        continue
+                    if any("'p', 10" in repr(rename_poly_key(x[1][k], corr)) for k in want if k != "n" and x[1][k] is not None):
+                        why.append("?")
+                        continue
+                    bad_fields = []
+                    for k in want:
+                        if k == "n":
+                            continue  # ring degree: asserted equal across operands at entry
+                        have = rename_poly_key(x[1][k], corr)
+                        if k == "k":
+                            good = c17_key_le(want[k], have)
+                        else:
+                            good = want[k] == have
+                        if not good:
+                            bad_fields.append(k)
+                    if not bad_fields:
+                        ok = True
+                    else:
+                        why.append("/".join(bad_fields))
+                pn = gq.param_names().get(cl, "#%d" % cl)
+                if not ok and "?" in why:
+                    res.undec("SC-6", "%s: companion %s takes fewer infos than the operation has operands (correspondence incomplete)" % (f.pretty, comp.name))
+                    continue
+                if ok:
+                    res.ok("SC-6", {"op": f.pretty, "nested": g.name, "argument": pn, "fields": sorted(want)} if n % 5 == 1 else None)
+                else:
+                    res.bad("SC-6", f.pretty, "temp-layout-not-mirrored:%s:%s" % (gqn, pn),
+                            "%s passes %s a temporary it creates with a layout literal as `%s`, but its companion %s never evaluates %s on a literal with the same fields "
+                            "(fields not dominated: %s): the declared size is computed for a different shape than the one the nested operation receives"
+                            % (f.pretty, g.name, pn, comp.name, gqn, "; ".join(sorted(set(why))) or "different field set"), site=f.where(t["l"]))
+    return n
 
 
 # ------------------------------------------------------------------ SC-2
